@@ -1,4 +1,5 @@
 """C19 - fleet calls retry only transport failures, boundedly, and recover afterwards."""
+import re
 from analysis.flow import must_cross, return_points, term_pt, trace_op
 from analysis.guards import facts_at, _variants_for_discr
 from analysis.mir import callee_matches, op_place
@@ -15,7 +16,8 @@ EXPLANATION = (
     "is not known to be an application reply (RepeError::ServerError) crosses invalidate_client before the next attempt or "
     "the return, and ensure_connected returns the cached client only when one is stored and otherwise connects and stores; "
     "(tag-filter) the broadcast target set is nodes.values().filter(tag_set.is_subset(node.tags)) and each target spawns "
-    "exactly one retrying call whose result is inserted under its node name. Not decided: enumeration of outcome sequences "
+    "exactly one retrying call whose result is inserted under its node name; (attempt-timeout-configured) every client call "
+    "inside a retry loop is given the node's config.timeout itself, resolved through closure captures. Not decided: enumeration of outcome sequences "
     "as such; a broadcast worker that panics loses its entry (documented gap `if let Ok(..) = join()`)."
 )
 ASSUMPTIONS = ["Range<usize>::next yields each index once", "Client/AsyncClient report a dead connection as RepeError::Io or a decode error, never as ServerError"]
@@ -235,9 +237,56 @@ def retryable_table(facts, R, module):
     return kinds
 
 
+def _resolve_upvar(facts, body, expr, depth=0):
+    """Render `expr`; while it is (a field path under) a captured variable of a closure / async block, replace the capture by
+    what the parent captured."""
+    txt = render(expr) if not isinstance(expr, str) else expr
+    core = txt.strip("(&*)")
+    m = re.match(r"^arg1\.(\w+)((?:\.\w+)*)$", core)
+    if not m or depth > 3 or "::{closure#" not in body.path:
+        return txt
+    parent = body.path.rsplit("::{closure#", 1)[0]
+    if parent not in facts.bodies:
+        return txt
+    pb = facts.body(parent)
+    ps = Sym(pb)
+    for i, j, st in pb.assigns():
+        rv = st["rv"]
+        if rv.get("agg") in ("closure", "coroutine") and rv.get("def") == body.path and m.group(1) in (rv.get("fields") or []):
+            cap = render(ps.op(rv["ops"][rv["fields"].index(m.group(1))])).strip("(&*)")
+            if not re.match(r"^[\w.]+$", cap):
+                return cap if not m.group(2) else txt
+            return _resolve_upvar(facts, pb, cap + m.group(2), depth + 1)
+    return txt
+
+
+def attempt_timeout_rule(facts, R):
+    """Every attempt is given the node's configured timeout: a value that shrinks with elapsed time or attempt number makes the
+    attempts after a silent one time out before any reply can arrive, so the call cannot recover within its attempt bound."""
+    n = 0
+    for path, module in LOOPS:
+        for p in sorted(facts.bodies):
+            if p != path and not p.startswith(path + "::{closure#"):
+                continue
+            b = facts.body(p)
+            s = Sym(b)
+            for i, t in b.calls():
+                if not (t["callee"]["name"].endswith("_with_timeout") and t["callee"]["path"].split("::")[0] in ("client", "async_client")):
+                    continue
+                n += 1
+                txt = _resolve_upvar(facts, b, s.op(t["args"][-1]))
+                core = re.sub(r"^(Clone>::clone|Duration::clone)\((.*)\)$", r"\2", txt).strip("(&*)")
+                ok = re.match(r"^[\w.]*config\.timeout$", core) is not None
+                R.check(ok, "attempt-timeout-configured", path, "per-attempt timeout is the node's configured timeout",
+                        "the attempt calls %s with timeout %s, not the node's config.timeout: a timeout that depends on elapsed time or the attempt "
+                        "number leaves later attempts too little time to get the reply" % (t["callee"]["name"], txt[:200]), t.get("span"), txt[:120])
+    R.floor("attempt-timeout-configured", n, 6, "client calls with an explicit timeout inside the retry loops")
+
+
 def run(facts, R):
     for path, module in LOOPS:
         analyse_loop(facts, R, path, module)
+    attempt_timeout_rule(facts, R)
     k1 = retryable_table(facts, R, "fleet")
     k2 = retryable_table(facts, R, "async_fleet")
     R.check(k1 == k2, "stop-rows", "<crate>", "blocking and async classification agree", "fleet: %s async_fleet: %s" % (k1, k2))
